@@ -147,6 +147,68 @@ def odd_keys(ctx):
                         return
 
 
+def mapping_like_leaves(ctx):
+    """leaf values that LOOK like mappings or nodes without being dicts — d42 schemas of every kind (dict schemas bare, with
+    keys, relaxed, with optional keys, nested), read-only / user / chained mappings, objects with keys()/items() — at every
+    depth, optional or not: a leaf comes back as the very object that went in"""
+    import collections
+    import types as pytypes
+    from d42 import schema
+
+    class Rec:
+        def __init__(self, d):
+            self.d = d
+
+        def keys(self):
+            return self.d.keys()
+
+        def items(self):
+            return self.d.items()
+
+        def __getitem__(self, k):
+            return self.d[k]
+
+        def __iter__(self):
+            return iter(self.d)
+
+        def __len__(self):
+            return len(self.d)
+
+    def leaves(sep):
+        return [schema.dict, schema.dict({}), schema.dict({"id": schema.int, optional("name"): schema.str}),
+                schema.dict({"a" + sep + "b": schema.int}), schema.dict({"id": schema.int, ...: ...}),
+                schema.dict({"n": schema.dict({optional("m"): schema.none})}), schema.list(schema.dict({"k": schema.int})),
+                schema.any(schema.dict({"k": schema.int}), schema.none), schema.int, schema.alias("A", schema.dict({"k": schema.int})),
+                pytypes.MappingProxyType({"a" + sep + "b": 1}), collections.UserDict({"a" + sep + "b": 1}),
+                collections.ChainMap({"a" + sep + "b": 1}, {"c": 2}), Rec({"a" + sep + "b": 1}), Rec({}), optional("k"), {}.keys(), {"a": 1}.items()]
+    for sep in (".", "__"):
+        for i, leaf in enumerate(leaves(sep)):
+            for tree in ({"user": leaf}, {"a": {"b": leaf, "c": 1}}, {"a": {optional("b"): leaf}}, {optional("top"): leaf, "z": {"y": {"x": leaf}}},
+                         {"a": {"b": leaf}, ...: ...}):
+                ctx.count("mapping_like_leaf_trees")
+                flat_d = dict(flatten(tree, sep))
+                for what, arg in (("rollout(flatten(m))", flat_d), ("rollout of an already nested mapping", dict(tree))):
+                    try:
+                        got = rollout(arg, separator=sep)
+                    except Exception as e:  # noqa: BLE001
+                        ctx.violation("%s raised %s" % (what, type(e).__name__), separator=sep, nested=safe_repr(tree), leaf_kind=type(leaf).__name__)
+                        return
+                    if not identical_leaves(got, tree):
+                        ctx.violation("%s does not give back the mapping with its leaf values untouched" % what, separator=sep,
+                                      nested=safe_repr(tree), got=safe_repr(got), leaf_kind=type(leaf).__name__)
+                        return
+
+
+def identical_leaves(a, b):
+    """same nesting, same keys (optional markers included), and every leaf the very same object"""
+    if type(b) is dict:
+        if type(a) is not dict or len(a) != len(b) or set(map(keyid, a)) != set(map(keyid, b)):
+            return False
+        bb = {keyid(k): v for k, v in b.items()}
+        return all(identical_leaves(v, bb[keyid(k)]) for k, v in a.items())
+    return a is b
+
+
 def stale_state(ctx):
     """the round trip and the identity must hold whatever rollout was asked before: calls that FAIL below the top level
     (a non-str key, a `...` key with another value, a leaf reused as a node — at depth 1, 2, 3) on the very mapping object
@@ -253,6 +315,7 @@ def run(ctx):
         info.append((sep, flat_d))
     stale_state(ctx)
     odd_keys(ctx)
+    mapping_like_leaves(ctx)
     res = model.run_batch(reqs)
     bad = 0
     for r, e, (sep, flat_d) in zip(res, exp, info):
